@@ -31,12 +31,13 @@ def is_call_of(t, tname):
     return isinstance(t, D.Call) and t.fn == 'ident(%s)' % tname
 
 
-def str_prims(nlines):
+def str_prims(nlines, one_shot=False):
     def p_str_to_lines(it, a, k, n):
         s = k.get('s', a[2] if len(a) > 2 else None)
         q = k.get('use_quote', a[1] if len(a) > 1 else None)
         it.last_split_quote = prov(q)
-        return ListV([SymStr('piece%d(%s)' % (i, prov(s)), nonempty=True) for i in range(nlines)])
+        # the splitter is a generator function: what it returns can be read once
+        return ListV([SymStr('piece%d(%s)' % (i, prov(s)), nonempty=True) for i in range(nlines)], lazy=one_shot)
     return {'str_to_lines': p_str_to_lines}
 
 
@@ -50,7 +51,9 @@ def string_printer_paths(repo, base, native, strategy_names=STRATEGIES, lines=(0
         sval = m.assigns.get(sname)
         strat = Const(sval[-1].value) if sval and isinstance(sval[-1], ast.Constant) else Const(sname)
         for nl in lines:
-            it = S.interp(repo, 'printer', str_prims(nl))
+            stl_ = m.funcs.get('str_to_lines')
+            gen_ = stl_ is not None and any(isinstance(x, (ast.Yield, ast.YieldFrom)) for x in ast.walk(stl_.node))
+            it = S.interp(repo, 'printer', str_prims(nl, one_shot=gen_))
             v = ValueV('s', S.type_scenario(base, native), None)
             ctx = CtxV('ctx', 0, strat)
             for pr in it.explore(fn, [v, ctx], {}):
